@@ -344,6 +344,9 @@ def byte_contracts():
         """roles of the loop's locals, read from the AST: the shifted mask, the current byte, the result list"""
         loop = ex._loop_nodes[-1]
         masks = {n.target.id for n in ast.walk(loop) if isinstance(n, ast.AugAssign) and isinstance(n.op, ast.RShift) and isinstance(n.target, ast.Name)}
+        masks |= {n.targets[0].id for n in ast.walk(loop) if isinstance(n, ast.Assign) and len(n.targets) == 1 and isinstance(n.targets[0], ast.Name)
+                  and isinstance(n.value, ast.BinOp) and isinstance(n.value.op, ast.RShift) and isinstance(n.value.left, ast.Name)
+                  and n.value.left.id == n.targets[0].id}
         bytes_ = {n.targets[0].id for n in ast.walk(loop) if isinstance(n, ast.Assign) and len(n.targets) == 1 and isinstance(n.targets[0], ast.Name)
                   and isinstance(n.value, ast.Call) and isinstance(n.value.func, ast.Attribute) and n.value.func.attr == "_read_uint8"}
         if len(masks) != 1 or len(bytes_) != 1:
@@ -542,6 +545,23 @@ def is_seq(*kinds, tag=None):
     return m
 
 
+def body_calls(*names):
+    """the loop body (including nested statements) calls a function / method / constructor with one of these names"""
+    def m(ex, st, it, node):
+        for n in ast.walk(node):
+            if isinstance(n, ast.Call):
+                f = n.func
+                nm = f.attr if isinstance(f, ast.Attribute) else getattr(f, "id", None)
+                if nm in names:
+                    return True
+        return False
+    return m
+
+
+def both(*ms):
+    return lambda ex, st, it, node: all(m(ex, st, it, node) for m in ms)
+
+
 def top(x, name):
     """value of a parameter of the function under contract (also visible from invariants of loops in inlined helpers)"""
     ex = getattr(x, "ex", x)
@@ -618,6 +638,43 @@ class C10Executor(Executor):
                 return False                                          # self handed to another function
         return True
 
+    def _comp_as_loop(self, n, st):
+        """[E for t in IT if C] over a SYMBOLIC IT for which the contract has a loop role is executed as the loop it abbreviates:
+        tmp = []; for t in IT: if C: tmp.append(E)   (so selection written as a comprehension meets the same invariant)"""
+        from pyvc.state import Frame
+        from pyvc.symex import Outcome
+        if self.contract is None or len(n.generators) != 1 or n.generators[0].is_async:
+            return super().e_ListComp(n, st)
+        g = n.generators[0]
+        probe = self.ev(g.iter, st.fork())
+        if len(probe) != 1 or not isinstance(probe[0][1], VSeq):
+            return super().e_ListComp(n, st)
+        tmp, itn = fresh_name("comp"), fresh_name("comp_iter")
+        app = ast.Expr(ast.Call(func=ast.Attribute(value=ast.Name(tmp, ast.Load()), attr="append", ctx=ast.Load()), args=[n.elt], keywords=[]))
+        body = [app]
+        if g.ifs:
+            test = g.ifs[0] if len(g.ifs) == 1 else ast.BoolOp(op=ast.And(), values=list(g.ifs))
+            body = [ast.If(test=test, body=[app], orelse=[])]
+        loop = ast.For(target=g.target, iter=ast.Name(itn, ast.Load()), body=body, orelse=[])
+        ast.copy_location(loop, n)
+        ast.fix_missing_locations(loop)
+        if not any(isinstance(k, tuple) and k[0] == "role" and sp.match(self, st, probe[0][1], loop) for k, sp in self.contract.loops.items()):
+            return super().e_ListComp(n, st)
+        out = []
+        for (s2, it) in self.ev(g.iter, st):
+            s2.frames.append(Frame({tmp: self.new_list(s2, []), itn: it}, len(s2.frames) - 1, s2.frame.fnode))
+            for o in self.exec_stmt(loop, s2):
+                if o.kind == "fall":
+                    v = o.st.lookup(tmp)
+                    o.st.frames.pop()
+                    out.append((o.st, v))
+                elif o.kind == "raise":
+                    o.st.frames.pop()
+                    self.raise_in(o.st, o.val)
+                else:
+                    self.unsupported(n, f"{o.kind} out of a comprehension")
+        return out
+
     def loop_spec(self, node):
         if self._role_stack and self._role_stack[-1] is not None and self._loop_nodes and self._loop_nodes[-1] is node:
             return self._role_stack[-1]
@@ -633,7 +690,7 @@ class C10Executor(Executor):
             if len(probe) != 1 or not isinstance(probe[0][1], VSeq):
                 spec = None
         if spec is None:
-            return super().e_ListComp(n, st)
+            return self._comp_as_loop(n, st)
         from pyvc.symex import LoopCtx
         from pyvc.state import Frame
         g = n.generators[0]
@@ -1330,6 +1387,8 @@ class MemberExecutor(C10Executor):
         st.ghost["yields"] = events(st, "yields") + (v,)
 
     def on_yield_from(self, st, gen, node):
+        if isinstance(gen, VExt) and gen.sort == "ResultGen":
+            self.exc_any(st.fork(), "next(extractor results)")      # the delegated-to generator may fail at any point
         st.ghost["yields"] = events(st, "yields") + (gen,)
 
     def list_method(self, st, obj, name, args, kwargs, node):
@@ -1400,7 +1459,7 @@ def install_members(reg):
         return [(st, zf)]
     reg.ext_models[("new", "zipfile.ZipFile")] = new_zip
     reg.ext_models[("with", "ZipFile")] = with_passthrough
-    reg.method_models[("ZipFile", "infolist")] = lambda ex, st, o, a, k, n: [(st, VSeq(ZN(o.t), lambda i: VExt("ZipInfo", ZINFO(o.t, i)), "ZipInfo"))]
+    reg.method_models[("ZipFile", "infolist")] = lambda ex, st, o, a, k, n: [(st, VSeq(ZN(o.t), lambda i: VExt("ZipInfo", ZINFO(o.t, i)), "ZipInfo", tag=("zipinfos", o.t)))]
     reg.attr_models[("ZipInfo", "is_dir")] = lambda ex, st, o: VFunc("bound", o, "is_dir")
     reg.method_models[("ZipInfo", "is_dir")] = lambda ex, st, o, a, k, n: [(st, VBool(ZISDIR(o.t)))]
     reg.attr_models[("ZipInfo", "flag_bits")] = lambda ex, st, o: VInt(ZFLAGS(o.t))
@@ -1428,7 +1487,7 @@ def install_members(reg):
 
     def tar_getmembers(ex, st, o, a, k, n):
         ex.exc_any(st.fork(), "TarFile.getmembers()")
-        return [(st, VSeq(TN(o.t), lambda i: VExt("TarInfo", TMEM(o.t, i)), "TarInfo"))]
+        return [(st, VSeq(TN(o.t), lambda i: VExt("TarInfo", TMEM(o.t, i)), "TarInfo", tag=("tarmembers", o.t)))]
     reg.method_models[("TarFile", "getmembers")] = tar_getmembers
     reg.attr_models[("TarInfo", "isreg")] = lambda ex, st, o: VFunc("bound", o, "isreg")
     reg.method_models[("TarInfo", "isreg")] = lambda ex, st, o, a, k, n: [(st, VBool(TISREG(o.t)))]
@@ -1574,7 +1633,14 @@ def member_contracts():
         big = BLEN(data) > max_entry
         if len(d) == 0:
             return big
-        return z3.And(z3.Not(big), z3.BoolVal(bool(c.st.ghost.get("results_exhausted"))))
+        if c.st.ghost.get("results_exhausted"):
+            return z3.Not(big)
+        # `yield from extractor(...)`: the whole result generator of THE dispatch is delegated to
+        f, args, kw = d[0]
+        whole = [y for y in events(c.st, "yields") if isinstance(y, VExt) and y.sort == "ResultGen"]
+        if len(d) == 1 and len(whole) == 1 and len(events(c.st, "yields")) == 1 and len(args) == 1 and isinstance(kw.get("path"), VStr):
+            return z3.And(z3.Not(big), whole[0].t == RUN(f.t, args[0].t, kw["path"].t))
+        return z3.BoolVal(False)
 
     out.append(FnContract(
         target=f"{ARCH}::_process_archive_entry",
@@ -1589,10 +1655,10 @@ def member_contracts():
 
     # ---- ZIP
     def zip_zf(lc):
-        vals = [v for v in lc.st.frame.env.values() if isinstance(v, VExt) and v.sort == "ZipFile"]
-        if len(vals) != 1:
-            raise ops.Unsupported("zip loop: expected one ZipFile local")
-        return vals[0].t
+        tag = getattr(lc.seq, "tag", None)
+        if isinstance(tag, tuple) and len(tag) == 2 and tag[0] in ("zipinfos", "worklist"):
+            return tag[1]
+        raise ops.Unsupported("zip loop: the iterated sequence does not come from a ZipFile")
 
 
     def zip_sel_inv(lc):
@@ -1654,10 +1720,10 @@ def member_contracts():
 
     # ---- TAR
     def tar_tf(lc):
-        vals = [v for v in lc.st.frame.env.values() if isinstance(v, VExt) and v.sort == "TarFile"]
-        if len(vals) != 1:
-            raise ops.Unsupported("tar loop: expected one TarFile local")
-        return vals[0].t
+        tag = getattr(lc.seq, "tag", None)
+        if isinstance(tag, tuple) and len(tag) == 2 and tag[0] == "tarmembers":
+            return tag[1]
+        raise ops.Unsupported("tar loop: the iterated sequence does not come from a TarFile")
 
     def tar_inv(lc):
         tf = tar_tf(lc)
@@ -1995,8 +2061,8 @@ def build_contracts(reg):
         requires=b_requires, raises=[], modifies=("self",),
         ensures=[completes("file-i-gets-its-name-attributes-and-the-size-of-its-sub-stream",
                            "file-with-r-th-stream-goes-to-the-folder-k-with-cum(k)<=r<cum(k+1)")],
-        loops=merged(role(is_seq("int"), "file-i-gets-its-name-attributes-and-the-size-of-its-sub-stream", files_inv),
-                   role(is_seq("tuple", "BuiltFile"), "file-with-r-th-stream-goes-to-the-folder-k-with-cum(k)<=r<cum(k+1)", map_inv)),
+        loops=merged(role(both(is_seq("int"), body_calls("FileInfo")), "file-i-gets-its-name-attributes-and-the-size-of-its-sub-stream", files_inv),
+                   role(both(is_seq("tuple", "BuiltFile", "int"), lambda ex, st, it, node: not body_calls("FileInfo")(ex, st, it, node)), "file-with-r-th-stream-goes-to-the-folder-k-with-cum(k)<=r<cum(k+1)", map_inv)),
         note="files without a stream are skipped, in header order; the r-th stream-bearing file is sub-stream j = r - cum(k) of the "
              "unique folder k with cum(k) <= r < cum(k) + num_streams(k); position j in _folder_to_files[k] follows from append order"))
     return out
@@ -2706,11 +2772,32 @@ def contracts(reg):
     return [guard_contract(c) for c in out]
 
 
+def _missing_locked_as_unknown(c, rep):
+    """an obligation recorded in the lock that the (changed) function no longer generates -- a loop whose role was not
+    recognised, a clause attached to a statement that disappeared -- is neither proved nor refuted: `unknown`"""
+    import json
+    import os
+    if rep.error or rep.out_of_subset or getattr(c, "bounded", ""):
+        return
+    try:
+        lock = json.load(open(os.path.join(os.path.dirname(os.path.dirname(os.path.abspath(__file__))), "obligations.lock.json"))).get("C10", {})
+    except (OSError, ValueError):
+        return
+    rel, qual = c.target.split("::")
+    prefix = f"C10/{rel.split('/')[-1]}::{qual}/"
+    have = {o["id"] for o in rep.obligations}
+    for oid in sorted(lock):
+        if oid.startswith(prefix) and oid not in have and "/call-pre#" not in oid and not oid.endswith(".BOUNDED"):
+            rep.obligations.append({"id": oid, "kind": oid[len(prefix):].split("#")[0], "status": "unknown", "vcs": 0, "seconds": 0.0, "backends": {},
+                                    "witness": None, "reason": "locked obligation not generated from the changed code (loop role / statement not recognised)", "loc": ""})
+
+
 def post_report(c, rep):
     """Round-3 policy: a refutation at the SMT level is NOT reported as a violation by itself.  Invariant-preservation VCs start from
     a havocked state, clauses return False for shapes they do not recognise, loop cuts / EXC-ANY over-approximate: none of these is a
     definite counterexample.  Every refuted obligation is handed to the native replayer as `unknown` (pyvc/check.py REPLAY_UNKNOWN):
     it becomes a VIOLATION exactly when replay/C10.py reproduces a failing input on the real code, otherwise it is UNDECIDED."""
+    _missing_locked_as_unknown(c, rep)
     for o in rep.obligations:
         if o.get("status") == "refuted":
             o["status"] = "unknown"
